@@ -24,7 +24,8 @@ from .linearfit import SUPPORTED_FITGEOM_MODES
 from .wcsutils import planar_rot_3d
 from .correctors import WCSCorrector
 from .linalg import inv
-from .linearfit import iter_linear_fit
+from .linearfit import (iter_linear_fit, NotEnoughPointsError,
+                        SingularMatrixError)
 
 from . import __version__  # noqa: F401
 
@@ -1378,9 +1379,19 @@ class WCSGroupCatalog(object):
                 imcat.fit_status = 'FAILED: not enough matches'
             return False
 
-        fit = self.fit2ref(refcat=refcat, tanplane_wcs=ref_tpwcs,
-                           fitgeom=fitgeom, nclip=nclip, sigma=sigma,
-                           clip_accum=clip_accum)
+        try:
+            fit = self.fit2ref(refcat=refcat, tanplane_wcs=ref_tpwcs,
+                               fitgeom=fitgeom, nclip=nclip, sigma=sigma,
+                               clip_accum=clip_accum)
+        except (NotEnoughPointsError, SingularMatrixError) as e:
+            # do not leave the alignment half-done: report failure for
+            # this group and let the caller continue with other images.
+            name = 'Unnamed' if self.name is None else self.name
+            log.warning("Failed to fit image catalog '{:s}': {:s}"
+                        .format(name, e.args[0]))
+            for imcat in self:
+                imcat.fit_status = 'FAILED: ' + e.args[0]
+            return False
 
         fit_info = {
             'fitgeom': fitgeom,
